@@ -43,6 +43,7 @@ def gen_case(rng, tier):
     prof["gap"] = rng.random() < 0.5
     prof["recent_bias"] = rng.choice([0, 0, 0.3, 0.6])
     prof["pure_loop"] = rng.choice([0, 0, 0.3, 0.5])
+    prof["relaunch"] = rng.choice([0, 0, 0.15, 0.3])
     ast = G.AccfgGen(rng, prof).program()
     envs = gen_envs(rng, K_ENVS[tier])
     for e in envs[1:]:
